@@ -176,13 +176,13 @@ Qed.
 
 (* ---- the upload loop ---- *)
 Lemma upload_one_post (cfg : runcfg') today nm d fd n :
-  In (EPost fd n) (snd (fst (upload_one R cfg today nm d))) ->
+  In (EPost fd n) (fst (upload_one R cfg today nm d)) ->
   n = nm /\ fd = last_n 10 (trim_suffix nm json_suffix) /\ future_report today nm = false.
 Proof.
   unfold upload_one. destruct (future_report today nm) eqn:F; [intros []|].
   destruct (d_local d) as [l|]; [|cbn; intros [H|[]]; discriminate].
   destruct (negb (local_has l nm)); [cbn; intros [H|[]]; discriminate|].
-  destruct (Nat.ltb _ _); [cbn; intros [H|[H|[]]]; discriminate|].
+  destruct (Nat.ltb _ _); [cbn; intros [H|[]]; discriminate|].
   destruct (d_upload d) as [u|]; [|cbn; intros [H|[]]; discriminate].
   destruct (names_has u _); [cbn; intros [H|[]]; discriminate|].
   destruct (names_has u _); [cbn; intros [H|[H|[H|[H|[H|[]]]]]]; discriminate|].
@@ -197,13 +197,11 @@ Lemma upload_all_post (cfg : runcfg') today ready : forall d fd n,
 Proof.
   induction ready as [|r rest IH]; intros d fd n H; cbn [upload_all] in H; [destruct H|].
   pose proof (upload_one_post cfg today r d fd n) as P.
-  destruct (upload_one R cfg today r d) as [[p e] d1]. cbn [fst snd] in P.
-  destruct p.
-  - cbn [fst] in H. destruct (P H) as (-> & -> & F). split; [left; reflexivity | auto].
-  - specialize (IH d1 fd n). destruct (upload_all R cfg today rest d1) as [e2 d2]. cbn [fst] in *.
-    apply in_app_or in H as [H|H].
-    + destruct (P H) as (-> & -> & F). split; [left; reflexivity | auto].
-    + destruct (IH H) as (I & J). split; [right; exact I | exact J].
+  destruct (upload_one R cfg today r d) as [e d1]. cbn [fst snd] in P.
+  specialize (IH d1 fd n). destruct (upload_all R cfg today rest d1) as [e2 d2]. cbn [fst] in *.
+  apply in_app_or in H as [H|H].
+  - destruct (P H) as (-> & -> & F). split; [left; reflexivity | auto].
+  - destruct (IH H) as (I & J). split; [right; exact I | exact J].
 Qed.
 
 Lemma not_post_in l fd n : forallb (fun e => negb (is_post e)) l = true -> ~ In (EPost fd n) l.
